@@ -339,7 +339,10 @@ Definition p_check (settled : bool) (tr : list label) : list N :=
 
 Record scase := { sc_trace : list label; sc_settled : bool }.
 
-Definition scase_model_ok (c : scase) : bool := accepts_f (sc_trace c).
+(* the checker used on recorded runs: only observable labels, and accepted by the search *)
+Definition accepts_visible (tr : list label) : bool :=
+  forallb (fun l => negb (is_tau l)) tr && accepts_f tr.
+Definition scase_model_ok (c : scase) : bool := accepts_visible (sc_trace c).
 Definition scase_prop_ok (c : scase) : bool := match p_check (sc_settled c) (sc_trace c) with [] => true | _ => false end.
 
 Fixpoint bad_from {A} (f : A -> bool) (i : N) (l : list A) : list N :=
